@@ -144,6 +144,8 @@ def required_cells(tier):
         "scale:extreme": 3, "scale:moderate": 3, "scale_cells_compared": 50,
         "reassign:alpha": 1, "reassign:zeta": 1, "reassign:cutoff": 1,
         "reassign:temperature": 1, "reassign:cutoff_type": 1,
+        "reassign-copy:copy.copy": 2, "reassign-copy:Bath.correlations": 2,
+        "reassign-copy:copy.deepcopy": 2,
     }
     for tc in set(T_CLASSES):
         req["T:" + tc] = 2
@@ -159,7 +161,7 @@ def cases(tier, seed):
     out += [{"kind": "scale", "seed": seed, "idx": i, "tier": tier}
             for i in range(12 if tier == "quick" else 80)]
     out += [{"kind": "reassign", "seed": seed, "idx": i, "tier": tier}
-            for i in range(10 if tier == "quick" else 60)]
+            for i in range(15 if tier == "quick" else 60)]
     return out
 
 
@@ -1358,6 +1360,16 @@ def run_reassign(case):
         vals.append(c.correlation(0.7 * dt))
         return np.array(vals, dtype=complex)
     before = observe(obj)
+    # copies made before the change (as oqupy.Bath makes them) keep answering
+    # for THEIR parameters, whatever happens to the original afterwards
+    import copy as _copy
+    how = ["copy.copy", "Bath.correlations", "copy.deepcopy"][(i // 5) % 3]
+    if how == "Bath.correlations":
+        cp = oqupy.Bath(np.diag([0.5, -0.5]).astype(complex), obj).correlations
+    elif how == "copy.copy":
+        cp = _copy.copy(obj)
+    else:
+        cp = _copy.deepcopy(obj)
     p2 = dict(p)
     if attr == "alpha":
         p2["alpha"] = p["alpha"] * 1.9
@@ -1386,8 +1398,43 @@ def run_reassign(case):
                     f"parameters gives {fresh[k]:.6g} (before the change "
                     f"{before[k]:.6g})",
             "mechanism": "stale-after-reassign", "detail": {"attr": attr}})
-    return {"violations": violations, "cells": ["reassign:" + attr],
-            "monitors": {"reassign_values_compared": int(len(after))},
+    cp_vals = observe(cp)
+    dev_cp = float(np.abs(cp_vals - before).max()) / float(
+        np.abs(before).max())
+    if dev_cp > 1e-9:
+        k = int(np.argmax(np.abs(cp_vals - before)))
+        violations.append({
+            "what": f"a copy ({how}) made before {attr} of the original was "
+                    f"re-assigned no longer answers for its own parameters: "
+                    f"entry {k} is {cp_vals[k]:.6g}, was {before[k]:.6g}",
+            "mechanism": "copy-follows-original", "detail": {"attr": attr}})
+    # and a parameter re-assigned on the copy
+    attr2 = ["cutoff", "alpha", "temperature", "alpha", "cutoff"][i % 5]
+    p3 = dict(p)
+    p3[attr2] = {"cutoff": p["cutoff"] * 0.7, "alpha": p["alpha"] * 0.4,
+                 "temperature": p["temperature"] + 0.9}[attr2]
+    setattr(cp, attr2, p3[attr2])
+    cp_new = observe(cp)
+    fresh3 = observe(oqupy.PowerLawSD(**p3))
+    dev3 = float(np.abs(cp_new - fresh3).max()) / float(np.abs(fresh3).max())
+    if dev3 > 1e-9:
+        k = int(np.argmax(np.abs(cp_new - fresh3)))
+        violations.append({
+            "what": f"a copy ({how}) whose {attr2} was re-assigned does not "
+                    f"answer like a fresh object with its parameters: entry "
+                    f"{k} is {cp_new[k]:.6g}, fresh {fresh3[k]:.6g}",
+            "mechanism": "stale-after-reassign",
+            "detail": {"attr": attr2, "copy": how}})
+    still = observe(obj)
+    if float(np.abs(still - fresh).max()) / scale > 1e-9:
+        violations.append({
+            "what": f"re-assigning {attr2} on a copy ({how}) changed what the "
+                    f"original answers", "mechanism": "copy-follows-original",
+            "detail": {}})
+    dev = max(dev, dev_cp, dev3)
+    return {"violations": violations, "cells": ["reassign:" + attr,
+                                                "reassign-copy:" + how],
+            "monitors": {"reassign_values_compared": int(len(after)) * 4},
             "nontrivial": changed > 1e-3,
             "signature": f"reassign-{attr}-{i % 6}", "maxratio": dev / 1e-9,
             "obs": {}, "sample": gen.nice({"kind": "reassign", "attr": attr,
